@@ -77,7 +77,7 @@ class Aggregate:
         self.errors: list = []  # harness errors (strings)
         self.digests: dict = {}  # (batch, index) -> digest, only for sampled indices
 
-    def add(self, batch: str, index: int, seed: int, trace, res: Result, keep_digest: bool):
+    def add(self, batch: str, index: int, seed: int, trace, res: Result, keep_digest: bool, chunk_start: int = 0):
         if res.discarded:
             self.discarded[res.discarded] += 1
             return
@@ -102,7 +102,7 @@ class Aggregate:
         if res.faults:
             self._sample("fault_injecting", (index, batch), index, batch, trace)
         if res.violations or res.hang:
-            self.violations.append((batch, index, seed, trace, list(res.violations), res.hang))
+            self.violations.append((batch, index, seed, trace, list(res.violations), res.hang, chunk_start))
 
     def _sample(self, name, key, index, batch, trace):
         cur = self.samples.get(name)
